@@ -167,6 +167,23 @@ theorem c08_body_held_is_event_sum (g : Cfg) (limit : Nat) (segs : List Bytes) a
     st'.bodyHeld = heldOf 0 acc' :=
   feedAllL_held g limit segs acc' st' c' h
 
+/-- C08 (body bound between any two callbacks, every outcome): with MaxHTTPBodySize set, along every chain of `Parse`
+    calls from a fresh parser — any segmentation, any ReadLimit, and whether the chain ends with a parser state or with
+    an error — after the k first callbacks, for every k, the body bytes handed to `OnBody` for the message under
+    construction do not exceed the limit. (`c08_body_bound_events` is the case "k = all, chain succeeded".) -/
+theorem c08_body_bound_every_prefix (g : Cfg) (hm : g.maxBody > 0) (limit : Nat) (segs : List Bytes) (k : Nat) :
+    heldOf 0 ((feedAllL (machine g) limit (init g) [] segs []).evs.take k) ≤ g.maxBody :=
+  Nat.le_trans (take_le_peak _ 0 k) (feedAllL_peak g hm limit segs)
+
+/-- non-vacuity on a failing chain: limit 3, chunks of 2 and 2 bytes — the second is refused (ErrTooLong, code 11), two
+    bytes were handed over -/
+example :
+    let gs : Cfg := { isClient := false, maxBody := 3, urlOk := fun _ => true, protoOk := fun _ => true }
+    let r := feedAllL (machine gs) 0 (init gs) []
+      [str "POST / HTTP/1.1\r\nTransfer-Encoding: chunked\r\n\r\n2\r\nab\r\n2\r\ncd\r\n0\r\n\r\n"] []
+    (match r.fin with | .inr e => e | .inl _ => 0) = 11 ∧ heldOf 0 r.evs = 2 := by
+  set_option maxRecDepth 100000 in decide
+
 /-- non-vacuity: two reads ending inside a chunked body — three body bytes handed over, message not complete -/
 example :
     let gs : Cfg := { isClient := false, maxBody := 0, urlOk := fun _ => true, protoOk := fun _ => true }
